@@ -194,7 +194,8 @@ Nbrs(v) ==
               { v, Lst(6, Append(v.e, Null)), Comp(0, 1, [i \in 1..v.n |-> S(<<>>, <<v.e[i]>>)]), Comp(1, 1, [i \in 1..v.n |-> S(<<Z>>, <<v.e[i]>>)]),
                 Comp(1, 1, [i \in 1..v.n |-> S(<<A>>, <<v.e[i]>>)]) }
               \cup UNION { { Lst(6, [v.e EXCEPT ![i] = x]) : x \in Nbrs(v.e[i]) } : i \in 1..v.n }
-         ELSE { v, Comp(v.dw + 1, v.pc, v.e), Comp(v.dw, v.pc + 1, v.e), Comp(v.dw, v.pc, Append(v.e, S(<<>>, <<>>))) }
+         ELSE { v, Comp(v.dw + 1, v.pc, v.e), Comp(v.dw, v.pc + 1, v.e), Comp(v.dw, v.pc, Append(v.e, S(<<>>, <<>>))),
+                Comp(v.dw + 2, v.pc, v.e), Comp(v.dw + 3, v.pc + 1, v.e) }      \* elements much larger than their canonical size
               \cup UNION { { Comp(MaxI(v.dw, Len(x.d)), MaxI(v.pc, Len(x.p)), [v.e EXCEPT ![i] = x]) : x \in Nbrs(v.e[i]) } : i \in 1..v.n }
 
 VARIABLE cur
